@@ -76,6 +76,18 @@ func lenOperand(v ssa.Value) (ssa.Value, bool) {
 // establishes len(x) >= k (0 when nothing is known).
 func lenLowerBound(x ssa.Value, in ssa.Instruction) int64 {
 	var best int64
+	// x = y[:h] with a non-constant h: len(x) == h, so a lower bound of h is one of len(x)
+	if sl, ok := x.(*ssa.Slice); ok && sl.High != nil {
+		lowZero := sl.Low == nil
+		if k, isK := constIntVal(sl.Low); sl.Low != nil && isK && k == 0 {
+			lowZero = true
+		}
+		if _, isConst := sl.High.(*ssa.Const); lowZero && !isConst {
+			if lo, _ := boundedBy(sl.High, in); lo != nil && *lo > best {
+				best = *lo
+			}
+		}
+	}
 	for _, dc := range dominatingConds(in.Block()) {
 		bo, ok := dc.cond.(*ssa.BinOp)
 		if !ok {
